@@ -22,6 +22,10 @@ pub struct Case {
     #[serde(default)]
     pub plugins: u8,
     pub steps: Vec<Step>,
+    /// db_activity_based_routing on (40 ms initialising window, 60 ms table mutation cache): plain reads may be sent to the primary
+    /// for a while, everything else must be routed as without it
+    #[serde(default)]
+    pub activity: bool,
 }
 
 pub struct WirePart;
@@ -38,14 +42,14 @@ impl Part for WirePart {
         true
     }
     fn rule(&self) -> String {
-        "one primary + two replicas (mock backends on 127.0.0.1/2/3), read/write splitting on, default_role × primary_reads_enabled × load balancing mode × replicas up/down × statement plugins off / query_logger / table_access (on a table nothing touches); sessions of 1..8 steps (class-labelled messages as simple Query or Parse/Bind/Execute/Sync, SET SERVER ROLE, SET PRIMARY READS); oracle: the role of the backend whose log shows the tagged statement satisfies the label model; with 'replica' pinned and both replicas down the client gets an error and the primary receives nothing. Non-trivial = a non-read class other than plain DML, or a message after an override".into()
+        "one primary + two replicas (mock backends on 127.0.0.1/2/3), read/write splitting on, default_role × primary_reads_enabled × load balancing mode × replicas up/down × statement plugins off / query_logger / table_access (on a table nothing touches) × db_activity_based_routing off/on (on: plain reads may also run on the primary, nothing else changes); sessions of 1..8 steps (class-labelled messages as simple Query or Parse/Bind/Execute/Sync, SET SERVER ROLE, SET PRIMARY READS); oracle: the role of the backend whose log shows the tagged statement satisfies the label model; with 'replica' pinned and both replicas down the client gets an error and the primary receives nothing. Non-trivial = a non-read class other than plain DML, or a message after an override".into()
     }
     fn cases(&self, tier: Tier) -> u64 {
         tier.pick(1_200, 16_000)
     }
     fn strategy(&self, _tier: Tier) -> BoxedStrategy<Case> {
-        (0u8..3, any::<bool>(), prop::bool::weighted(0.2), any::<bool>(), prop_oneof![2 => Just(0u8), 1 => 1u8..4], prop::collection::vec(step_strategy(), 1..9))
-            .prop_map(|(default_role, primary_reads, replicas_down, lb_loc, plugins, steps)| Case { default_role, primary_reads, replicas_down, lb_loc, plugins, steps })
+        (0u8..3, any::<bool>(), prop::bool::weighted(0.2), any::<bool>(), prop_oneof![2 => Just(0u8), 1 => 1u8..4], prop::collection::vec(step_strategy(), 1..9), prop::bool::weighted(0.25))
+            .prop_map(|(default_role, primary_reads, replicas_down, lb_loc, plugins, steps, activity)| Case { default_role, primary_reads, replicas_down, lb_loc, plugins, steps, activity })
             .boxed()
     }
     fn run(&self, c: &Case, ctx: &mut WorkerCtx) -> Outcome {
@@ -69,6 +73,11 @@ fn config(mocks: &[crate::mock::MockServer], c: &Case) -> PgcatConfig {
     pool.set("default_role", ["\"any\"", "\"replica\"", "\"primary\""][(c.default_role % 3) as usize]);
     if c.lb_loc {
         pool.set("load_balancing_mode", "\"loc\"");
+    }
+    if c.activity {
+        pool.set("db_activity_based_routing", "true");
+        pool.set("db_activity_init_delay", "40");
+        pool.set("table_mutation_cache_ms_ttl", "60");
     }
     if c.plugins > 0 {
         // plugins that never object to the generated statements: routing must be what it is without them
@@ -112,6 +121,9 @@ async fn run_case(c: &Case, ctx: &mut WorkerCtx) -> Outcome {
     }
     if c.plugins > 0 {
         o.label("plugins_enabled");
+    }
+    if c.activity {
+        o.label("activity_based_routing");
     }
     let mut model = Model::new(c.primary_reads);
     let mut overridden = false;
@@ -197,9 +209,12 @@ async fn run_case(c: &Case, ctx: &mut WorkerCtx) -> Outcome {
                     match server {
                         Some(sv) => {
                             let got = if sv == 0 { "primary" } else { "replica" };
+                            // (activity-based routing may pin plain reads to the primary for a while; it never sends anything
+                            // else to a replica and does not override an explicit role)
+                            let reads_only = classes.iter().all(|c| *c == Class::Read);
                             let ok = match want {
                                 "primary" => got == "primary",
-                                "replica" => got == "replica",
+                                "replica" => got == "replica" || (c.activity && reads_only && model.pinned.is_none()),
                                 _ => true,
                             };
                             if !ok {
